@@ -8,6 +8,8 @@ use crate::packet_id;
 
 use super::pending_packet;
 use super::frame_queue;
+#[cfg(feature = "verif")]
+use crate::verif::rand;
 
 #[derive(Debug,PartialEq)]
 pub enum DataPushError {
